@@ -690,10 +690,8 @@ class DMSAngle(object):
         :return: HP Notation (DDD.MMSSSS)
         :rtype: float
         """
-        if self.positive:
-            return self.degree + (self.minute / 100) + (self.second / 10000)
-        else:
-            return -(self.degree + (self.minute / 100) + (self.second / 10000))
+        # via decimal degrees, so that seconds that round up to 60 carry into the minutes and degrees
+        return dec2hp(self.dec())
 
     def hpa(self):
         """
@@ -892,11 +890,8 @@ class DDMAngle(object):
         :return: HP Notation (DDD.MMSSSS)
         :rtype: float
         """
-        minute_int, second = divmod(self.minute, 1)
-        if self.positive:
-            return self.degree + (minute_int / 100) + (second * 0.006)
-        else:
-            return -(self.degree + (minute_int / 100) + (second * 0.006))
+        # via decimal degrees, so that seconds that round up to 60 carry into the minutes and degrees
+        return dec2hp(self.dec())
 
     def hpa(self):
         """
